@@ -54,6 +54,9 @@ impl Name {
                 ctx.report(format!("duplicate entry in name_record: '{}'", left.3))
             }
         }
+        // this custom validator replaces the generated one for `name_record`,
+        // so the records themselves have to be validated from here
+        self.name_record.validate_impl(ctx);
     }
 }
 
@@ -76,8 +79,17 @@ impl NameRecord {
                 "Unhandled platform/encoding id pair: ({}, {})",
                 self.platform_id, self.encoding_id
             )),
-            Encoding::Utf16Be => (), // lgtm
+            Encoding::Utf16Be => {
+                let len: usize = self.string().chars().map(|c| c.len_utf16() * 2).sum();
+                if len > u16::MAX as usize {
+                    ctx.report(format!("string is too long ({len} bytes, max 65535)"));
+                }
+            }
             Encoding::MacRoman => {
+                let len = self.string().chars().count();
+                if len > u16::MAX as usize {
+                    ctx.report(format!("string is too long ({len} bytes, max 65535)"));
+                }
                 for c in self.string().chars() {
                     if MacRomanMapping.encode(c).is_none() {
                         ctx.report(format!(
